@@ -379,7 +379,7 @@ def run_kernel(seq, transport, kind, model_positions=()):
             peer.stop_flag = threading.Event()
             th = threading.Thread(target=peer.serve_call, daemon=True)
             th.start()
-            socket.setdefaulttimeout(5)
+            socket.setdefaulttimeout(30)
             try:
                 res = c.call()
             finally:
@@ -432,7 +432,14 @@ def outcome_class(c):
 def check_kernel(case):
     seq, transport, kind = case
     viols_m, classes_m, _ = run_sequence(seq, transport, kind)
-    viols_k, classes_k = run_kernel(seq, transport, kind, list(run_sequence.positions))
+    positions = list(run_sequence.positions)
+    viols_k, classes_k = run_kernel(seq, transport, kind, positions)
+    if viols_k:
+        # real sockets and threads: a verdict must reproduce before it is believed (a loaded machine can hit a socket timeout)
+        viols_2, classes_2 = run_kernel(seq, transport, kind, positions)
+        sigs = {sig for sig, _ in viols_2}
+        viols_k = [v for v in viols_k if v[0] in sigs]
+        classes_k = classes_2
     out = Out(cls="kernel:" + ",".join(sorted(set(classes_k))))
     for sig, detail in viols_k:
         out.bad(sig, detail)
